@@ -126,7 +126,7 @@ macro "rs_exec" : tactic => `(tactic|
   repeat' (first
     | split
     | (simp (disch := omega) only [index_eq, setIndex_eq, uadd_eq, usub_eq, umod_eq, udiv_eq,
-        gen_helper, Option.bind_eq_bind, Option.bind_some, Option.pure_def, decide_eq_true_eq,
+        gen_helper, Option.bind_eq_bind, Option.bind_some, Option.pure_def, decide_eq_true_eq, imp_false,
         decide_eq_false_iff_not, Bool.not_eq_true', Bool.and_eq_true, Bool.or_eq_true] at *)))
 
 theorem ite_some_some {α : Type} (c : Prop) [Decidable c] (a b : α) :
@@ -170,7 +170,7 @@ macro_rules
         | contradiction
         | (simp (maxSteps := 1000000) (disch := omega) only [index_eq, setIndex_eq, uadd_eq, usub_eq,
             umod_eq, udiv_eq, slice_eq, slice_set_eq, ite_some_some, ite_prod_left, ite_self,
-            gen_helper, Option.bind_eq_bind, Option.bind_some, Option.pure_def, decide_eq_true_eq,
+            gen_helper, Option.bind_eq_bind, Option.bind_some, Option.pure_def, decide_eq_true_eq, imp_false,
             decide_eq_false_iff_not, Bool.not_eq_true', Bool.and_eq_true, Bool.or_eq_true, $ts,*])
         | split))
 
